@@ -4201,8 +4201,19 @@ impl Database {
         prepared: &super::PreparedStatement,
         params: &[OwnedValue],
     ) -> Result<ExecuteResult> {
+        // insert_cached writes the bound values inline: a value that has to go through TOAST
+        // (above the threshold, or one that looks like a TOAST pointer) takes the ordinary path
+        let wants_toast = params.iter().any(|p| match p {
+            OwnedValue::Text(s) => crate::storage::toast::needs_toast(s.as_bytes()),
+            OwnedValue::Blob(b) => {
+                crate::storage::toast::needs_toast(b) || crate::storage::toast::is_toast_pointer(b)
+            }
+            _ => false,
+        });
+
         #[cfg(feature = "timing")]
-        if let Some(result) = prepared.with_cached_plan(|plan| {
+        if wants_toast {
+        } else if let Some(result) = prepared.with_cached_plan(|plan| {
             let insert_start = std::time::Instant::now();
             let result = self.execute_insert_cached(plan, params);
             INSERT_TIME_NS.fetch_add(
@@ -4215,7 +4226,8 @@ impl Database {
         }
 
         #[cfg(not(feature = "timing"))]
-        if let Some(result) =
+        if wants_toast {
+        } else if let Some(result) =
             prepared.with_cached_plan(|plan| self.execute_insert_cached(plan, params))
         {
             return result;
